@@ -48,26 +48,24 @@ def min_hosts(cfg):
     k = len(terms)
     if any(d[0][t] >= INF for t in terms):
         return None
+    import numpy as np
+    D = np.array(d, dtype=np.int64)
     full = (1 << k) - 1
-    dp = [[INF] * n for _ in range(full + 1)]
+    dp = np.full((full + 1, n), INF, dtype=np.int64)
     for i, t in enumerate(terms):
-        for v in range(n):
-            dp[1 << i][v] = d[t][v]
+        dp[1 << i] = D[t]
     for mask in range(1, full + 1):
         if mask & (mask - 1) == 0:
             continue
-        for v in range(n):
-            best = INF
-            sub = (mask - 1) & mask
-            while sub:
-                c = dp[sub][v] + dp[mask ^ sub][v]
-                if c < best:
-                    best = c
-                sub = (sub - 1) & mask
-            dp[mask][v] = best
-        for v in range(n):
-            dp[mask][v] = min(dp[mask][u] + d[u][v] for u in range(n))
-    edges = min(dp[full])
+        best = dp[mask]
+        sub = (mask - 1) & mask
+        while sub:
+            rest = mask ^ sub
+            if sub < rest:
+                np.minimum(best, dp[sub] + dp[rest], out=best)
+            sub = (sub - 1) & mask
+        dp[mask] = np.min(best[:, None] + D, axis=0)
+    edges = int(dp[full].min())
     if edges >= INF:
         return None
     extra_subnets = edges + 1 - k
@@ -214,6 +212,9 @@ def c20_spec(rng, idx):
             spec["then"] = configs.c20_domain(
                 configs.gen_params(rng, max_hosts=30))
         return spec
+    if r < 0.55:
+        return shaped_spec(rng, rng.choice(["departments", "two_level",
+                                            "two_level", "deep_branches"]))
     shape = rng.choice(["star", "star", "tree", "tree", "random", "chain",
                         "clique", "split"])
     doc = docgen.gen_doc(rng, shape=shape, max_subnets=rng.choice([4, 5, 6]),
@@ -235,6 +236,63 @@ def c20_spec(rng, idx):
             if e["prob"] == 0:
                 e["prob"] = 0.5
     return {"kind": "yaml", "text": docgen.emit(doc, rng)}
+
+
+def shaped_spec(rng, which):
+    """Hand-shaped branching topologies: many sensitive department subnets
+    behind one DMZ; two levels of branching with branch points that hold no
+    sensitive host; deep branches of different lengths."""
+    edges = [(0, 1)]
+    sens_subnets = []
+    if which == "departments":
+        k = rng.randint(8, 10)
+        for i in range(k):
+            edges.append((1, 2 + i))
+        sens_subnets = list(range(2, 2 + k))
+        n = 1 + k
+    elif which == "two_level":
+        b = rng.randint(2, 3)
+        n = 1
+        for _ in range(b):
+            n += 1
+            branch = n
+            edges.append((1, branch))
+            for _ in range(rng.randint(2, 3)):
+                n += 1
+                edges.append((branch, n))
+                sens_subnets.append(n)
+    else:
+        n = 1
+        for _ in range(rng.randint(2, 3)):
+            prev = 1
+            for _ in range(rng.randint(1, 4)):
+                n += 1
+                edges.append((prev, n))
+                prev = n
+            sens_subnets.append(prev)
+    doc = docgen.gen_doc(rng, shape="chain", max_subnets=1, max_hosts=1,
+                         step_limit=None, cost_domain="ge1", deny_rate=0.0)
+    srvs, procs, oss = doc["services"], doc["processes"], doc["os"]
+    T = [[1 if i == j else 0 for j in range(n + 1)] for i in range(n + 1)]
+    for a, b in edges:
+        T[a][b] = T[b][a] = 1
+    doc["subnets"] = [1] * n
+    doc["topology"] = T
+    doc["host_configurations"] = {
+        docgen.A(s, 0): {"os": oss[0], "services": list(srvs),
+                         "processes": list(procs)}
+        for s in range(1, n + 1)}
+    doc["sensitive_hosts"] = {docgen.A(s, 0): rng.choice([10, 100, 2.5])
+                              for s in sens_subnets}
+    for e in doc["exploits"].values():
+        e["os"] = "none"
+        e["prob"] = 1.0
+        e["access"] = "root"
+    doc["firewall"] = {docgen.A(i, j): list(srvs)
+                       for i in range(n + 1) for j in range(n + 1)
+                       if i != j and T[i][j] == 1}
+    return {"kind": "yaml", "text": docgen.emit(doc, rng),
+            "family": which}
 
 
 def c20_run_one(prop, tier, root, idx, extra):
